@@ -110,11 +110,11 @@ def generate(ctx):
     if not quick:
         add(h1a, "secure", 16, limit=6000)
         g1d = ctx.tlc_must("Trie", G_CFG % ("1, 2, 3", "1, 4", 5, 0, "content"), name="G1_content_deep", timeout=1500)
-        add(hists(g1d), "plain", 64, limit=15000)
+        add(hists(g1d), "plain", 64, limit=10000)
     # G1b: node-database alphabet
     g1b = ctx.tlc_must("Trie", G_CFG % ("2, 3", "3", 5 if quick else 6, 2, "db"), name="G1_db", timeout=1500)
     h1b = hists(g1b)
-    add(h1b, "plain", 1 << 30, limit=5000 if quick else 20000)
+    add(h1b, "plain", 1 << 30, limit=5000 if quick else 15000)
     add(h1b, "secure", 1 << 30, limit=1500 if quick else 8000)
     n1 = len(behs)
 
